@@ -5,7 +5,7 @@ DUT: luna.gateware.interface.spi.SPIDeviceInterface(word_size 2..33, clock_polar
 
 Workload: an SPI host model written for this check.  Per case 3..14 transactions of 1..5 words (some
 with a trailing partial word = abort in the middle of a word, followed by a fresh transaction), SCK
-half periods 2..8 sync cycles with per-half-period jitter, CS-to-first-edge and last-edge-to-CS
+half periods 1..8 sync cycles with per-half-period jitter, CS-to-first-edge and last-edge-to-CS
 delays 1..6, CS idle gaps 1..10, SCK/SDI traffic for "another device" while CS is inactive,
 `word_out` changed in the middle of words (stable around the word boundary where the device may
 latch it) and while deselected.  SDI data: random, single-bit, all-ones/zero and asymmetric patterns
@@ -30,34 +30,40 @@ Not judged: SDO in CPHA 0 modes (the statement restricts the clause to leading-e
 in LSB-first configurations (the statement says MSB first; the device is configurable) - counted as
 unjudged; `word_accepted`; exact latency of `word_complete` (only the window).
 
-Finding on the unchanged tree: the bit counter is cleared only by CS, so for sizes that are not a
-power of two the second word of a transaction is never reported at its boundary
-(mechanism word_boundary_lost_after_first_word_non_pow2_size, see findings/C50.md).  Every violation
-that lies in that regime (size not a power of two AND report of a word after the first / SDO of a word
-after the second) gets that mechanism name; everything else (first word, single-word transactions,
-SDO of the first two words, all power-of-two sizes) keeps its specific name and fails the run.
+History: on the original tree the bit counter was cleared only by CS, so for sizes that are not a power
+of two the second word of a transaction was not reported at its boundary (findings/C50.md, mechanism
+word_boundary_lost_after_first_word_non_pow2_size, fixed in /repo 1c5c355).  The check no longer renames
+anything: a regression shows up as word_complete_missing_later_word / word_in_wrong_bits / sdo_wrong_bit_later_word.
+
+Fast SCK: half periods of 1 and 2 sync cycles (SCK = sync/2 and sync/4) are generated on purpose, with CS
+held across words, so that the first edge of the next word falls 1 or 2 cycles after a word's last sample
+edge - exactly where the device reloads its transmit register and hands over the received word (required
+bins word_boundary_next_edge_after_1/2 and their sdo_judged_ variants).  The block has no synchroniser in
+front of its edge detector, so sync/2 is the fastest SCK it can resolve; the unmodified block handles it
+(verified), so it is judged.  At half period 1 SDO has zero slack (it changes in the cycle the host samples
+it); a design with an additional output register could not run at sync/2 on hardware either.
 """
 from rv.sim import Bench
 
 PROPERTY = "C50"
 CASES = {"quick": 320, "thorough": 6400}
 RULE = ("case = (word_size 2..33, CPOL, CPHA, bit order, CS polarity, 3..14 transactions each 1..5 words (+ optional "
-        "partial word), half period 2..8 with jitter, CS/clock delays, foreign clocks while deselected, word_out changes); "
+        "partial word), half period 1..8 with jitter, CS/clock delays, foreign clocks while deselected, word_out changes); "
         "non-trivial = at least one multi-word transaction was judged; distinct = hash of config + full pin script")
 REQUIRED_BINS = ["size_pow2", "size_non_pow2", "size_ge_17", "size_le_3", "mode0", "mode1", "mode2", "mode3",
                  "msb_first", "lsb_first", "cs_active_high", "cs_active_low", "multiword_pow2", "multiword_non_pow2",
                  "third_word_reported_pow2", "abort_partial_word", "transaction_after_abort", "foreign_clock_while_deselected",
-                 "word_out_changed_inside_transaction", "sdo_word_ge1_judged", "half_period_2", "cs_to_clock_1",
+                 "word_out_changed_inside_transaction", "sdo_word_ge1_judged", "half_period_1", "half_period_2", "word_boundary_next_edge_after_1", "word_boundary_next_edge_after_2",
+                 "sdo_judged_word_boundary_next_edge_after_1", "sdo_judged_word_boundary_next_edge_after_2", "cs_to_clock_1",
                  "clock_to_cs_1", "cs_gap_1"]
 REQUIRED_EVENTS = ["transactions", "sample_edges", "words_expected", "words_reported_checked", "sdo_bits_checked",
                    "quiet_cycles_checked"]
-ASSUMPTIONS = ["SCK half period >= 2 sync cycles, SDI stable from >= 1 cycle before to >= 1 cycle after the sample edge",
+ASSUMPTIONS = ["SCK half period >= 1 sync cycle (SCK <= sync/2), SDI valid in the cycle of the sample edge and >= 1 cycle before it",
                "CS changes only while SCK is at its idle level, >= 1 cycle away from any SCK edge; CS inactive >= 1 cycle",
                "word_out is stable from 2 cycles before to 3 cycles after the point where the device may latch it",
                "SDO judged only for clock_phase=1 and msb_first=True; word_complete latency only bounded (8 cycles)"]
 
 WINDOW = 8
-KNOWN = "word_boundary_lost_after_first_word_non_pow2_size"
 
 
 def _pow2(n):
@@ -73,7 +79,7 @@ def run_case(rng, tier, res):
     cs_high_idle = rng.random() < 0.4
     dut = SPIDeviceInterface(word_size=ws, clock_polarity=cpol, clock_phase=cpha, msb_first=msb, cs_idles_high=cs_high_idle)
     cs_on, cs_off = (0, 1) if cs_high_idle else (1, 0)
-    hbase = rng.choice([2, 2, 3, 3, 4, 5, 8])
+    hbase = rng.choice([1, 1, 1, 2, 2, 2, 3, 3, 4, 5, 8])
     mask = (1 << ws) - 1
     res.bin("size_pow2" if _pow2(ws) else "size_non_pow2")
     if ws >= 17:
@@ -83,6 +89,8 @@ def run_case(rng, tier, res):
     res.bin("mode%d" % (2 * cpol + cpha))
     res.bin("msb_first" if msb else "lsb_first")
     res.bin("cs_active_low" if cs_high_idle else "cs_active_high")
+    if hbase == 1:
+        res.bin("half_period_1")
     if hbase == 2:
         res.bin("half_period_2")
 
@@ -103,10 +111,14 @@ def run_case(rng, tier, res):
         return (rng.getrandbits(ws) | 1) & ~(1 << (ws - 1)) & mask      # asymmetric: lsb set, msb clear
 
     def half():
-        j = rng.choice([0, 0, 0, 0, 1, 1, 2, -1, 3])
-        return max(2, hbase + j)
+        j = rng.choice([0, 0, 0, 0, 0, 1, 1, 2, -1, 3])
+        return max(1 if hbase <= 2 else 2, hbase + j)
 
     # ---------------------------------------------------------------- script (explicit, for the replay/evidence)
+    # word_out may change right after the sample edge of bit `i` of a word: i >= wo_lo keeps the change >= 4 cycles after
+    # the previous word boundary even at half period 1, i <= wo_hi keeps it >= 2 cycles before the word's last sample edge
+    wo_lo = 1 if hbase <= 2 else 0
+    wo_hi = ws - 3 if ws >= 3 else 0
     script = []
     budget = rng.randint(2500, 4500)
     used = 0
@@ -121,7 +133,7 @@ def run_case(rng, tier, res):
              "gap": rng.choice([1, 1, 2, 3, 4, rng.randint(1, 10)]),
              "foreign": rng.randint(1, 2 * ws + 3) if rng.random() < 0.3 else 0,
              "wo0": word_value() if rng.random() < 0.8 else None,
-             "wo": [(word_value(), rng.randint(0, max(0, ws - 2 - (1 if ws >= 3 else 0)))) if rng.random() < 0.75 else None
+             "wo": [(word_value(), rng.randint(wo_lo, wo_hi)) if (wo_hi >= wo_lo and rng.random() < 0.75) else None
                     for _ in range(nwords + 1)]}
         script.append(t)
         used += (nwords * ws + partial + t["foreign"]) * 2 * (hbase + 1) + 20
@@ -140,14 +152,6 @@ def run_case(rng, tier, res):
         """violation inside a transaction: report once, stop judging until things are quiet again"""
         if word_index is None:
             word_index = st["widx"]
-        if not _pow2(ws) and word_index >= 1 and not mech.startswith("sdo") or \
-           not _pow2(ws) and word_index >= 2 and mech.startswith("sdo"):
-            # Regime of the known defect: word_size not a power of two and the first word of the transaction is over.
-            # The device's bit counter is then out of step with the word boundaries for the rest of the transaction:
-            # reports come late/misaligned (sometimes close enough to be taken for the right word with wrong bits)
-            # and word_out is not reloaded at the real boundaries (SDO wrong from the third word on).
-            detail = "[%s] %s" % (mech, detail)
-            mech = KNOWN
         res.violation(mech, "cyc=%d ws=%d cpol=%d cpha=%d msb=%d cs_idles_high=%d word_index=%d: %s"
                       % (b.cycle, ws, cpol, cpha, msb, cs_high_idle, st["widx"], detail))
         st["dead"] = True
@@ -211,6 +215,15 @@ def run_case(rng, tier, res):
             st["bits"] = []
         st["sel"] = sel
 
+        if edge and sel and st.get("boundary") is not None:
+            d = c - st["boundary"]
+            st["boundary"] = None
+            if d <= 2:
+                res.bin("word_boundary_next_edge_after_%d" % d)
+                if cpha == 1 and msb and st["tx"]["ok"]:
+                    res.bin("sdo_judged_word_boundary_next_edge_after_%d" % d)
+        if not sel:
+            st["boundary"] = None
         if edge:
             leading = (sck != cpol)
             is_sample = leading if cpha == 0 else (not leading)
@@ -245,6 +258,7 @@ def run_case(rng, tier, res):
                     st["bits"] = []
                     st["widx"] += 1
                     latch_tx()
+                    st["boundary"] = c
         # --- word_complete
         if wc:
             if not st["pending"]:
